@@ -324,3 +324,19 @@ CHECKS["C07"] = {
         {"name": "httpserver", "pkg": "pkg/object/httpserver", "test": "TestVerifC07", "inject": [LOOPBACK], "workers": 8},
     ],
 }
+
+CHECKS["C18"] = {
+    "level": "model_checking",
+    "technique": "controlled-scheduler enumeration of 3 concurrent admin requests on the real handlers with a linearisability oracle; TLA+ model of the cluster mutex checked by TLC, all its traces replayed against the real mutex on an embedded etcd",
+    "level_text": "part 1: all 56 trios from 8 admin requests (create/update/delete/get/list on overlapping names, same and other kind) x {object present, absent} run concurrently on the real handlers over a fake cluster whose KV operations and (ideal) mutex are "
+                  "scheduler gates, every schedule up to the preemption bound; oracle: some sequential order consistent with call/return order explains all statuses, X-Config-Version values, reads and the final store. "
+                  "part 2: see unit mutex (TLC + trace replay)",
+    "level_note": "part 1 assumes an exclusive lock (that is what part 2 is about); supervisor kinds are two test kinds",
+    "rule": "choice tree: initial state + scheduler choices; distinct_nontrivial = distinct status triples",
+    "explanation": "states = executions (schedules) resp. TLC states; transitions likewise; traces_validated_against_impl = executions on the real code",
+    "bounds": {"quick": "preemption bound 2", "thorough": "preemption bound 3"},
+    "assumptions": ["between two gates a goroutine runs atomically"],
+    "units": [
+        {"name": "api", "pkg": "pkg/api", "test": "TestVerifC18api", "gomaxprocs": 1},
+    ],
+}
